@@ -297,3 +297,56 @@ func verifHarness_C18_Sequence41() {
 	rt.Assert(oofs == 0 && lofs == 0 && lockOwners == 0, "after all leases expire no owner, open or lock state remains")
 	rt.Assert(opened == 0, "after all leases expire no opened-file records remain")
 }
+
+// A COMPOUND the server refuses right after SEQUENCE (too many operations for
+// the session, a misordered sequence id, a slot beyond the table) holds nothing:
+// once the client falls silent its lease expires and all its state, including
+// the files it had open, is reclaimed.
+func verifHarness_C18_RefusedCompound41() {
+	rt.MustCover("41:too-many-ops", "41:misordered", "41:bad-slot")
+	r := verifNewRig41("f")
+	g := &verifGhost41{r: r, gen: 1}
+	r.login("client-a", 1)
+	ok := r.open("o1", "f", virtual.ShareMaskRead).(*nfsv4.Open4res_NFS4_OK)
+	g.opens = append(g.opens, &verifGhostOpen{owner: "o1", file: "f", stateID: ok.Resok4.Stateid, mask: virtual.ShareMaskRead, live: true})
+	g.check()
+	n := 1 + rt.Choose(2)
+	for k := 0; k < n; k++ {
+		switch rt.Choose(3) {
+		case 0:
+			ops := []nfsv4.NfsArgop4{&nfsv4.NfsArgop4_OP_PUTROOTFH{}}
+			for len(ops) < 8 { // SEQUENCE + 8 > ca_maxoperations = 8
+				ops = append(ops, &nfsv4.NfsArgop4_OP_GETFH{})
+			}
+			res := r.sequenceRaw(0, r.slotSeq[0]+1, ops...)
+			r.checkLocks()
+			rt.Assert(res.Status == nfsv4.NFS4ERR_TOO_MANY_OPS, "a COMPOUND with more operations than the session allows is refused")
+			rt.Cover("41:too-many-ops")
+		case 1:
+			res := r.sequenceRaw(0, r.slotSeq[0]+5, &nfsv4.NfsArgop4_OP_PUTROOTFH{})
+			r.checkLocks()
+			rt.Assert(res.Status == nfsv4.NFS4ERR_SEQ_MISORDERED, "a misordered sequence id is refused")
+			rt.Cover("41:misordered")
+		case 2:
+			res := r.sequenceRaw(7, 1, &nfsv4.NfsArgop4_OP_PUTROOTFH{})
+			r.checkLocks()
+			rt.Assert(res.Status == nfsv4.NFS4ERR_BADSLOT, "a slot beyond the session's table is refused")
+			rt.Cover("41:bad-slot")
+		}
+		g.check()
+	}
+	// The client falls silent; other clients keep the server busy.
+	r.clock.now += int64(verifLease) + int64(time.Second)
+	r.exchangeID("client-z", 2)
+	r.clock.now += int64(verifLease) + int64(time.Second)
+	r.exchangeID("client-y", 2)
+	r.clock.now += int64(verifLease) + int64(time.Second)
+	r.raw(&nfsv4.NfsArgop4_OP_DESTROY_CLIENTID{OpdestroyClientid: nfsv4.DestroyClientid4args{DcaClientid: 1}})
+	g.dropAll()
+	g.check()
+	clients, incarnations, sessions, oofs, lofs, lockOwners, opened := r.tables()
+	rt.Assert(clients == 0 && incarnations == 0, "after all leases expire no client records remain")
+	rt.Assert(sessions == 0, "after all leases expire no session records remain")
+	rt.Assert(oofs == 0 && lofs == 0 && lockOwners == 0, "after all leases expire no owner, open or lock state remains")
+	rt.Assert(opened == 0, "after all leases expire no opened-file records remain")
+}
